@@ -382,7 +382,14 @@ func checkMain(args []string) int {
 				groups[s] = g
 				order = append(order, s)
 			}
-			if len(g.fails) < 3 {
+			// keep a few witnesses per signature, preferring paths that can be realised natively
+			if !f.UFChoice {
+				if len(g.fails) < 4 {
+					g.fails = append([]*AssertFail{f}, g.fails...)
+				} else if g.fails[len(g.fails)-1].UFChoice {
+					g.fails = append([]*AssertFail{f}, g.fails[:len(g.fails)-1]...)
+				}
+			} else if len(g.fails) < 4 {
 				g.fails = append(g.fails, f)
 			}
 		}
